@@ -12,8 +12,8 @@
 use super::*;
 use crate::packet::number::PacketNumberLen;
 
-const N: usize = 12; // packet bytes visible to the harness: first byte, header, 4 packet number bytes, start of payload
-const HMAX: usize = 7; // header_len (offset of the packet number) ranges over 1..=7
+const N: usize = 8; // packet bytes visible to the harness: first byte, header, 4 packet number bytes, start of payload
+const HMAX: usize = 3; // header_len (offset of the packet number) ranges over 1..=3
 
 fn any_space() -> PacketNumberSpace {
     let s: u8 = kani::any();
@@ -73,12 +73,12 @@ fn eq_bytes(a: &[u8; N], b: &[u8; N]) -> bool {
     ok
 }
 
-//@ harness props=C06 tier=quick level=bounded timeout=300 bound="12 packet bytes visible, header_len 1..=7; mask, first byte (long/short, every pn length), pn bytes full domain"
+//@ harness props=C06 tier=quick level=bounded timeout=300 bound="8 packet bytes visible, header_len 1..=3; mask, first byte (long/short, every pn length), pn bytes full domain"
 //@ fn apply_header_protection
 //@ fn mask_from_packet_tag
 //@ fn xor_mask
 #[kani::proof]
-#[kani::unwind(14)]
+#[kani::unwind(10)]
 fn vq_c06_hp_apply() {
     let mask: HeaderProtectionMask = kani::any();
     let orig: [u8; N] = kani::any();
@@ -119,14 +119,13 @@ fn vq_c06_hp_apply() {
     kani::cover!(true, "reach:end");
 }
 
-//@ harness props=C06 tier=quick level=bounded timeout=300 bound="12 packet bytes visible, header_len 1..=7; mask, first byte (long/short, every pn length), pn bytes full domain"
+//@ harness props=C06 tier=quick level=bounded timeout=300 bound="8 packet bytes visible, header_len 1..=3; mask, first byte (long/short, every pn length), pn bytes full domain"
 //@ fn remove_header_protection
-//@ fn apply_header_protection
 //@ fn mask_from_packet_tag
 //@ fn xor_mask
 #[kani::proof]
-#[kani::unwind(14)]
-fn vq_c06_hp_remove_roundtrip() {
+#[kani::unwind(10)]
+fn vq_c06_hp_remove() {
     let mask: HeaderProtectionMask = kani::any();
     let wire: [u8; N] = kani::any(); // what arrives: any bytes at all (an attacker chooses them)
     let h: usize = kani::any();
@@ -153,20 +152,48 @@ fn vq_c06_hp_remove_roundtrip() {
         i += 1;
     }
     assert!(tpn.into_u64() == v, "C06/header_protection.remove/pn_is_unmasked_bytes_big_endian");
-    // round trip: protecting what was just unprotected gives back the wire bytes, and vice versa
-    let unprotected = buf;
-    {
-        let _ = apply_header_protection(mask, EncryptedPayload::new(h, got_len, &mut buf));
-    }
-    assert!(eq_bytes(&buf, &wire), "C06/header_protection.roundtrip/apply_after_remove_is_identity");
-    {
-        let r2 = remove_header_protection(space, mask, ProtectedPayload::new(h, &mut buf));
-        assert!(r2.is_ok(), "C06/header_protection.roundtrip/second_remove_ok");
-    }
-    assert!(eq_bytes(&buf, &unprotected), "C06/header_protection.roundtrip/remove_after_apply_is_identity");
     kani::cover!(wire[0] & 0x80 == 0x80 && want_n == 4, "reach:long_header_pn4");
     kani::cover!(wire[0] & 0x80 == 0 && want_n == 1, "reach:short_header_pn1");
     kani::cover!((wire[0] & 3) != (want[0] & 3), "reach:pn_len_bits_were_masked");
+    kani::cover!(h == 1, "reach:header_len_min");
+    kani::cover!(h == HMAX, "reach:header_len_max");
+    kani::cover!(true, "reach:end");
+}
+
+//@ harness props=C06 tier=quick level=bounded timeout=300 bound="8 packet bytes visible, header_len 1..=3; mask, first byte (long/short, every pn length), pn bytes full domain"
+//@ fn remove_header_protection
+//@ fn apply_header_protection
+#[kani::proof]
+#[kani::unwind(10)]
+fn vq_c06_hp_roundtrip() {
+    // remove . apply == id (what the sender protects, the receiver recovers) and apply . remove == id, on every byte
+    let mask: HeaderProtectionMask = kani::any();
+    let orig: [u8; N] = kani::any();
+    let h: usize = kani::any();
+    kani::assume(1 <= h && h <= HMAX);
+    let space = any_space();
+    let pn_len = PacketNumberLen::from_packet_tag(orig[0], space);
+    let mut buf = orig;
+    {
+        let _ = apply_header_protection(mask, EncryptedPayload::new(h, pn_len, &mut buf));
+    }
+    let protected = buf;
+    let got_len = {
+        let res = remove_header_protection(space, mask, ProtectedPayload::new(h, &mut buf));
+        assert!(res.is_ok(), "C06/header_protection.roundtrip/remove_ok");
+        let (tpn, enc) = res.unwrap();
+        assert!(tpn.len() == pn_len, "C06/header_protection.roundtrip/pn_len_recovered");
+        enc.packet_number_len
+    };
+    assert!(got_len == pn_len, "C06/header_protection.roundtrip/payload_pn_len_recovered");
+    assert!(eq_bytes(&buf, &orig), "C06/header_protection.roundtrip/remove_after_apply_is_identity");
+    {
+        let _ = apply_header_protection(mask, EncryptedPayload::new(h, got_len, &mut buf));
+    }
+    assert!(eq_bytes(&buf, &protected), "C06/header_protection.roundtrip/apply_after_remove_is_identity");
+    kani::cover!(orig[0] & 0x80 == 0x80 && pn_len.bytesize() == 4, "reach:long_header_pn4");
+    kani::cover!(orig[0] & 0x80 == 0 && pn_len.bytesize() == 1, "reach:short_header_pn1");
+    kani::cover!((protected[0] & 3) != (orig[0] & 3), "reach:pn_len_bits_masked_on_the_wire");
     kani::cover!(h == 1, "reach:header_len_min");
     kani::cover!(h == HMAX, "reach:header_len_max");
     kani::cover!(true, "reach:end");
